@@ -2186,16 +2186,329 @@ def gen_rlevinson(rng, n, nimpl):
     return c
 
 
+# ---------------------------------------------------------------- the wrappers (T6): aryule, ma (C12, C15); the conversions of linear_prediction.py (C11)
+def oracle_vals(rng, n):
+    """arbitrary values for the hidden pylab_rms_flat slots of the embedded CORRELATIONs (never read: aryule passes norm biased / unbiased only)"""
+    return [complex(int(rng.integers(1, 9)) / 4.0) for _ in range(n)]
+
+
+def gen_aryule(rng, n, nimpl):
+    from spectrum.yulewalker import aryule
+    c = Cases('aryule')
+    kinds = ['plain', 'unbiased', 'plain', 'allow_false', 'order_ge_N', 'singular', 'plain', 'norm_bad', 'order0', 'unbiased', 'allow_true', 'singular',
+             'constant', 'empty']
+    i = 0
+    while len(c.exact) < n:
+        kind = kinds[i % len(kinds)]; i += 1
+        cplx = bool(rng.integers(0, 2)); N = int(rng.integers(3, 9)); p = int(rng.integers(1, min(5, N - 1) + 1))
+        x = lowbit(rng, N, cplx, bits=2)
+        nm = None; allow = None
+        if kind == 'unbiased':
+            nm = 'unbiased'
+        elif kind == 'allow_false':
+            allow = False; nm = ['biased', None][int(rng.integers(0, 2))]
+        elif kind == 'allow_true':
+            allow = True; nm = 'unbiased'
+        elif kind == 'order_ge_N':
+            p = N + int(rng.integers(0, 2))
+        elif kind == 'singular':
+            # an unbiased estimate that is not positive definite (x = [a, 0, .., 0, b]: r_{N-1} = a*b is divided by 1, r_0 by N), allow_singularity False / default
+            x = np.zeros(N, dtype=complex); x[0] = int(rng.integers(1, 4)); x[-1] = int(rng.integers(1, 4)) * (1j if cplx and rng.integers(0, 2) else 1)
+            p = N - 1; nm = 'unbiased'; allow = [False, None, True][int(rng.integers(0, 3))]
+        elif kind == 'norm_bad':
+            nm = ['coeff', 'foo'][int(rng.integers(0, 2))]
+        elif kind == 'order0':
+            p = 0
+        elif kind == 'constant':
+            x = np.ones(N) * (2 if not cplx else 1j); nm = 'unbiased'; allow = False; p = min(p, 2)      # r_k = r_0: P = 0 at stage 1
+        elif kind == 'empty':
+            x = x[:0]; p = int(rng.integers(0, 2))
+        tags = [False] if (cplx and len(x)) else [True, False]
+        kw = {}
+        if nm is not None:
+            kw['norm'] = nm
+        if allow is not None:
+            kw['allow_singularity'] = allow
+        with np.errstate(all='ignore'):
+            res = call_impl(aryule, x if cplx else np.real(x), p, **kw)
+        o1, o2 = oracle_vals(rng, 2)
+        for tag in tags:
+            c.add('q_aryule prog_aryule %s %s %d%%nat %s %s %s %s' % ('true' if tag else 'false', czl(x), p, opt(None if nm is None else '"%s"' % nm),
+                                                                   opt(None if allow is None else ('true' if allow else 'false')), cz(o1), cz(o2)),
+                  impl=res, x=vlib.hexv(x), order=p, norm=nm, allow_singularity=allow, declared_real=tag, kind=kind)
+        if len(c.impl) < nimpl and kind in ('plain', 'unbiased', 'order_ge_N', 'norm_bad', 'order0', 'allow_false'):
+            out, ex = res
+            args = '[%s; %s; %s; %s; %s; %s]' % (A_(not cplx, x), I_(p), 'Omit' if nm is None else Str_(nm), 'Omit' if allow is None else B_(allow), S_(o1), S_(o2))
+            if ex is not None:
+                if ex in EXC and not any(m.get('impl_raised') == ex and m.get('kind') == kind for m in c.impl_meta):
+                    c.add_impl('ir_raises (qrun prog_aryule %s) %s' % (args, ex), x=vlib.hexv(x), order=p, norm=nm, impl_raised=ex, kind=kind)
+            else:
+                a, P, k = out
+                r0 = float(np.sum(np.abs(x) ** 2)) / len(x)
+                kap = max(1.0, r0 / max(abs(P), 1e-300))
+                if kap < 1e3 and np.all(np.isfinite(a)) and np.all(np.abs(k) < 0.99):
+                    c.add_impl('ir_close %s (qrun prog_aryule %s) %s' % (tolq(1e-9 * kap * max(1.0, float(np.max(np.abs(a))) if len(a) else 1.0)), args, outs(a, P, k)),
+                               x=vlib.hexv(x), order=p, norm=nm, kind=kind)
+    return c
+
+
+def gen_ma(rng, n, nimpl):
+    from spectrum.arma import ma
+    c = Cases('ma')
+    kinds = ['plain', 'plain', 'q0', 'plain', 'q_ge_m', 'm_ge_N', 'plain', 'qneg', 'plain', 'q_eq_m', 'plain', 'predictable']
+    i = 0
+    while len(c.exact) < n:
+        kind = kinds[i % len(kinds)]; i += 1
+        cplx = bool(rng.integers(0, 2)); N = int(rng.integers(5, 10)); M = int(rng.integers(2, min(5, N - 1) + 1)); Q = int(rng.integers(1, M))
+        x = lowbit(rng, N, cplx, bits=2)
+        if kind == 'q0':
+            Q = 0
+        elif kind == 'qneg':
+            Q = -int(rng.integers(1, 3))
+        elif kind == 'q_ge_m':
+            Q = M + int(rng.integers(1, 3))
+        elif kind == 'q_eq_m':
+            Q = M
+        elif kind == 'm_ge_N':
+            M = N + int(rng.integers(0, 2)); Q = int(rng.integers(1, 4))
+        elif kind == 'predictable':
+            x = np.array([1.0, -1.0] * 5)[:N] * (1j if cplx else 1)     # strongly predictable: a reflection coefficient close to one, small P
+        tags = [False] if cplx else [True, False]
+        with np.errstate(all='ignore'):
+            res = call_impl(ma, x if cplx else np.real(x), Q, M)
+        o = oracle_vals(rng, 4)
+        for tag in tags:
+            c.add('q_ma prog_ma %s %s (%d) (%d) %s' % ('true' if tag else 'false', czl(x), Q, M, ' '.join(cz(v) for v in o)),
+                  impl=res, x=vlib.hexv(x), Q=Q, M=M, declared_real=tag, kind=kind)
+        if len(c.impl) < nimpl and kind != 'predictable':
+            out, ex = res
+            args = '[%s; %s; %s; %s]' % (A_(not cplx, x), I_(Q), I_(M), '; '.join(S_(v) for v in o))
+            if ex is not None:
+                if ex in EXC and not any(m.get('kind') == kind for m in c.impl_meta):
+                    c.add_impl('ir_raises (qrun prog_ma %s) %s' % (args, ex), x=vlib.hexv(x), Q=Q, M=M, impl_raised=ex, kind=kind)
+            else:
+                b, rho = out
+                from spectrum.yulewalker import aryule
+                a1, p1, k1 = aryule(x if cplx else np.real(x), M, 'biased'); b2, p2, k2 = aryule(np.insert(a1, 0, 1), Q, 'biased')
+                kap = max([1.0] + [1 / abs(1 - abs(t) ** 2) for t in list(k1) + list(k2) if abs(t) != 1])
+                if kap < 1e3 and np.all(np.isfinite(b)):
+                    c.add_impl('ir_close %s (qrun prog_ma %s) %s' % (tolq(1e-9 * kap * kap * max(1.0, float(np.max(np.abs(a1))))), args, outs(b, rho)),
+                               x=vlib.hexv(x), Q=Q, M=M, kind=kind)
+    return c
+
+
+def gen_ac2(fname):
+    """ac2poly / ac2rc: LEVINSON(data) at full order, allow_singularity False"""
+    def gen(rng, n, nimpl):
+        import spectrum.linear_prediction as lp
+        f = getattr(lp, fname)
+        c = Cases(fname)
+        kinds = ['acorr', 'acorr', 'indef', 'acorr', 'len1', 'r0complex', 'acorr', 'empty', 'indef', 'structured']
+        i = 0
+        while len(c.exact) < n:
+            kind = kinds[i % len(kinds)]; i += 1
+            cplx = bool(rng.integers(0, 2)); p = int(rng.integers(1, 6)); N = p + int(rng.integers(2, 8))
+            r = acorr_int(lowbit(rng, N, cplx), p)
+            if kind == 'indef':
+                j = int(rng.integers(1, p + 1)); r = r.copy(); r[j] = r[j] + (3 + rng.integers(0, 3)) * np.real(r[0])
+            elif kind == 'len1':
+                r = r[:1]
+            elif kind == 'empty':
+                r = r[:0]
+            elif kind == 'r0complex':
+                r = r.astype(complex); r[0] = r[0] + 1j * int(rng.integers(1, 4)); cplx = True     # ac2rc returns data[0] itself, LEVINSON starts from its real part
+            elif kind == 'structured':
+                r = structured_acorr(rng, max(p, 2), cplx); cplx = bool(np.any(np.imag(r) != 0)) or cplx
+            tags = [False] if (cplx and len(r)) else [True, False]
+            with np.errstate(all='ignore'):
+                res = call_impl(f, r if cplx else np.real(r))
+            for tag in tags:
+                c.add('q_%s prog_%s %s %s' % (fname, fname, 'true' if tag else 'false', czl(r)), impl=res, r=vlib.hexv(r), declared_real=tag, kind=kind)
+            if len(c.impl) < nimpl and kind in ('acorr', 'indef', 'len1', 'r0complex'):
+                out, ex = res
+                args = '[%s]' % A_(not cplx, r)
+                if ex is not None:
+                    if ex in EXC and not any(m.get('impl_raised') == ex for m in c.impl_meta):
+                        c.add_impl('ir_raises (qrun prog_%s %s) %s' % (fname, args, ex), r=vlib.hexv(r), impl_raised=ex, kind=kind)
+                else:
+                    from spectrum import LEVINSON
+                    a, P, k = LEVINSON(r if cplx else np.real(r))
+                    kap = max(1.0, abs(r[0]) / max(abs(P), 1e-300))
+                    if kap < 1e3 and np.all(np.isfinite(a)):
+                        c.add_impl('ir_close %s (qrun prog_%s %s) %s' % (tolq(1e-9 * kap * max(1.0, abs(r[0]))), fname, args, outs(out[0], out[1])), r=vlib.hexv(r), kind=kind)
+        return c
+    return gen
+
+
+def rlev_poly(rng, i):
+    """(kind, a, real, efinal): the input kinds of gen_rlevinson (prediction polynomials on the 1/64 grid, the argument errors, exact step-ups
+    with a reflection coefficient equal to one / of modulus one, non-minimum-phase polynomials, efinal <= 0)"""
+    kinds = ['poly', 'real', 'poly', 'a0', 'real', 'k1', 'poly', 'short', 'nonmin', 'real', 'unitk', 'poly', 'empty', 'enonpos', 'k1', 'real']
+    kind = kinds[i % len(kinds)]
+    p = int(rng.integers(1, 6))
+    a = poly_from_refl(rng, p); real = False
+    ef = float(rng.integers(1, 33)) / 8
+    if kind == 'real':
+        ks = rng.integers(-10, 11, size=p) / 16.0
+        a = np.zeros(0)
+        for t in ks:
+            a = np.concatenate((a + t * a[::-1], [t]))
+        a = np.concatenate(([1.0], np.round(a * 64) / 64)).astype(complex); real = True
+    elif kind == 'a0':
+        a = a.copy(); a[0] = [2, 0.5, 0, 1 + 1j][int(rng.integers(0, 4))]
+    elif kind == 'short':
+        a = a[:1]
+    elif kind == 'empty':
+        a = a[:0]
+    elif kind in ('k1', 'unitk'):
+        p = int(rng.integers(2, 5)); real = bool(rng.integers(0, 2))
+        ks = rng.integers(-2, 3, size=p) / 4.0 + (0 if real else 1j * rng.integers(-2, 3, size=p) / 4.0)
+        j = int(rng.integers(1, p))
+        ks = ks.astype(complex); ks[j] = 1 if kind == 'k1' else [-1, 1j, -1j][int(rng.integers(0, 1 if real else 3))]
+        a = stepup_exact(ks)
+    elif kind == 'nonmin':
+        a = np.concatenate(([1.0 + 0j], lowbit(rng, p, True, bits=3) / 4.0))
+    elif kind == 'enonpos':
+        ef = -float(rng.integers(0, 9)) / 8
+    return kind, a, real, ef
+
+
+def gen_poly2(fname, which):
+    """poly2ac (which = 0: R) / poly2rc (which = 2: kr): one component of rlevinson(a, efinal)"""
+    def gen(rng, n, nimpl):
+        import spectrum.linear_prediction as lp
+        f = getattr(lp, fname)
+        c = Cases(fname)
+        i = 0
+        while len(c.exact) < n:
+            kind, a, real, ef = rlev_poly(rng, i); i += 1
+            for tag in ([True, False] if real else [False]):
+                arg = np.real(a) if tag else np.asarray(a, dtype=complex)
+                with np.errstate(all='ignore'):
+                    res = call_impl(f, arg, ef)
+                c.add('q_%s prog_%s %s %s %s' % (fname, fname, 'true' if tag else 'false', czl(a), cz(ef)), impl=res, a=vlib.hexv(a), efinal=ef, declared_real=tag, kind=kind)
+                if kind == 'unitk':
+                    continue
+                out, ex = res
+                args = '[%s; %s]' % (A_(tag, a), S_(ef))
+                if ex is not None:
+                    if ex in EXC and kind in ('a0', 'short', 'empty', 'k1') and not any(m.get('kind') == kind for m in c.impl_meta):
+                        c.add_impl('ir_raises (qrun prog_%s %s) %s' % (fname, args, ex), a=vlib.hexv(a), efinal=ef, impl_raised=ex, kind=kind)
+                elif kind in ('poly', 'real', 'enonpos') and sum(1 for m in c.impl_meta if 'impl_raised' not in m) < nimpl:
+                    from spectrum.levinson import rlevinson
+                    R, U, kr, es = rlevinson(arg, ef)
+                    if np.all(np.isfinite(R)) and np.all(np.isfinite(U)) and np.max(np.abs(kr)) < 0.97:
+                        kap = float(1.0 / np.prod(1 - np.abs(kr) ** 2))
+                        if kap <= 1e4:
+                            tol = 1e-9 * kap * kap * max(1.0, float(np.max(np.abs(U)))) * max(1.0, abs(ef))
+                            c.add_impl('ir_close %s (qrun prog_%s %s) %s' % (tolq(tol), fname, args, outs(out)), a=vlib.hexv(a), efinal=ef, kind=kind)
+        return c
+    return gen
+
+
+def gen_ar2rc(rng, n, nimpl):
+    import spectrum.linear_prediction as lp
+    c = Cases('ar2rc')
+    while len(c.exact) < n:
+        p = int(rng.integers(0, 4)); cplx = bool(rng.integers(0, 2))
+        a = lowbit(rng, p, cplx, bits=2)
+        res = call_impl(lp.ar2rc, a)
+        c.add('q_ar2rc prog_ar2rc %s %s' % ('false' if cplx else 'true', czl(a)), impl=(None, 'NotImplementedError') if res[1] == 'other:NotImplementedError' else res, a=vlib.hexv(a))
+        if len(c.impl) < min(nimpl, 2) and res[1] == 'other:NotImplementedError':
+            c.add_impl('ir_raises_ni (qrun prog_ar2rc [%s])' % A_(not cplx, a), a=vlib.hexv(a), impl_raised='NotImplementedError')
+    return c
+
+
+def refl_input(rng, i):
+    """(kind, k, real): reflection coefficients on the 1/8 grid, orders 1..5; the empty sequence; a coefficient equal to one / of modulus one"""
+    kinds = ['cplx', 'real', 'cplx', 'real', 'one', 'cplx', 'empty', 'real', 'unit', 'order1', 'one_first', 'big']
+    kind = kinds[i % len(kinds)]
+    p = int(rng.integers(1, 6)); real = kind in ('real',) or (kind in ('one', 'order1', 'big', 'one_first') and bool(rng.integers(0, 2)))
+    k = rng.integers(-6, 7, size=p) / 8.0 + (0 if real else 1j * rng.integers(-6, 7, size=p) / 8.0)
+    k = k.astype(complex)
+    if kind == 'empty':
+        k = k[:0]
+    elif kind == 'order1':
+        k = k[:1]
+    elif kind == 'one':
+        p = max(p, 2); k = np.resize(k, p); k[int(rng.integers(1, p))] = 1
+    elif kind == 'one_first':
+        k[0] = 1
+    elif kind == 'unit':
+        p = max(p, 2); k = np.resize(k, p); j = int(rng.integers(0, p)); k[j] = [-1, 1j, -1j][int(rng.integers(0, 1 if real else 3))]
+    elif kind == 'big':
+        k[int(rng.integers(0, p))] = 1.5 if real else 1 + 1j
+    return kind, k, (real or not np.any(np.imag(k) != 0)) and kind != 'empty'
+
+
+def gen_rc2poly(rng, n, nimpl):
+    import spectrum.linear_prediction as lp
+    c = Cases('rc2poly')
+    i = 0
+    while len(c.exact) < n:
+        kind, k, real = refl_input(rng, i); i += 1
+        r0 = None if i % 4 == 0 else float(rng.integers(1, 17)) / 4
+        for tag in ([True, False] if (real or len(k) == 0) else [False]):
+            arg = np.real(k) if tag else k
+            with np.errstate(all='ignore'), __import__('warnings').catch_warnings():
+                __import__('warnings').simplefilter('ignore')
+                res = call_impl(lp.rc2poly, arg, r0)
+            c.add('q_rc2poly prog_rc2poly %s %s %s' % ('true' if tag else 'false', czl(k), opt(None if r0 is None else cz(r0))), impl=res, k=vlib.hexv(k), r0=r0, declared_real=tag, kind=kind)
+            if len(c.impl) < nimpl and kind in ('cplx', 'real', 'empty', 'order1', 'one', 'big'):
+                out, ex = res
+                args = '[%s; %s]' % (A_(tag, k), 'Omit' if r0 is None else S_(r0))
+                if ex is not None:
+                    if ex in EXC and not any(m.get('kind') == kind for m in c.impl_meta):
+                        c.add_impl('ir_raises (qrun prog_rc2poly %s) %s' % (args, ex), k=vlib.hexv(k), r0=r0, impl_raised=ex, kind=kind)
+                elif np.all(np.isfinite(out[0])):
+                    c.add_impl('ir_close %s (qrun prog_rc2poly %s) %s' % (tolq(1e-10 * max(1.0, float(np.max(np.abs(out[0])))) * max(1.0, abs(r0 or 0))), args, outs(out[0], out[1])),
+                               k=vlib.hexv(k), r0=r0, kind=kind)
+    return c
+
+
+def gen_rc2ac(rng, n, nimpl):
+    import spectrum.linear_prediction as lp
+    c = Cases('rc2ac')
+    i = 0
+    while len(c.exact) < n:
+        kind, k, real = refl_input(rng, i); i += 1
+        r0 = float(rng.integers(1, 17)) / 4
+        if len(k) > 4:
+            k = k[:4]
+        for tag in ([True, False] if (real or len(k) == 0) else [False]):
+            arg = np.real(k) if tag else k
+            with np.errstate(all='ignore'), __import__('warnings').catch_warnings():
+                __import__('warnings').simplefilter('ignore')
+                res = call_impl(lp.rc2ac, arg, r0)
+            c.add('q_rc2ac prog_rc2ac %s %s %s' % ('true' if tag else 'false', czl(k), cz(r0)), impl=res, k=vlib.hexv(k), R0=r0, declared_real=tag, kind=kind)
+            if len(c.impl) < nimpl and kind in ('cplx', 'real', 'empty', 'order1', 'one'):
+                out, ex = res
+                args = '[%s; %s]' % (A_(tag, k), S_(r0))
+                if ex is not None:
+                    if ex in EXC and not any(m.get('kind') == kind for m in c.impl_meta):
+                        c.add_impl('ir_raises (qrun prog_rc2ac %s) %s' % (args, ex), k=vlib.hexv(k), R0=r0, impl_raised=ex, kind=kind)
+                elif np.all(np.isfinite(out)) and np.max(np.abs(k)) < 0.97:
+                    kap = float(1.0 / np.prod(1 - np.abs(k) ** 2))
+                    if kap <= 1e4:
+                        c.add_impl('ir_close %s (qrun prog_rc2ac %s) %s' % (tolq(1e-9 * kap * kap * max(1.0, r0)), args, outs(out)), k=vlib.hexv(k), R0=r0, kind=kind)
+    return c
+
+
 GENERATORS = {'LEVINSON': gen_LEVINSON, 'HERMTOEP': gen_HERMTOEP, 'TOEPLITZ': gen_TOEPLITZ, 'levup': gen_levup, 'levdown': gen_levdown,
               'arburg': gen_arburg, 'CORRELATION': gen_CORRELATION, 'minvar_psi': gen_minvar_psi,
               'arcovar_marple': gen_marple('arcovar_marple', False), 'modcovar_marple': gen_marple('modcovar_marple', True),
-              'rlevinson': gen_rlevinson}
+              'rlevinson': gen_rlevinson,
+              'aryule': gen_aryule, 'ma': gen_ma, 'ac2poly': gen_ac2('ac2poly'), 'ac2rc': gen_ac2('ac2rc'), 'poly2ac': gen_poly2('poly2ac', 0),
+              'poly2rc': gen_poly2('poly2rc', 2), 'ar2rc': gen_ar2rc, 'rc2poly': gen_rc2poly, 'rc2ac': gen_rc2ac}
 EXACT_BUDGET = {'LEVINSON': (64, 400), 'HERMTOEP': (48, 300), 'TOEPLITZ': (56, 300), 'levup': (45, 200), 'levdown': (44, 200),
                 'arburg': (65, 400), 'CORRELATION': (68, 400), 'minvar_psi': (48, 300),
-                'arcovar_marple': (36, 180), 'modcovar_marple': (36, 180), 'rlevinson': (56, 300)}
+                'arcovar_marple': (36, 180), 'modcovar_marple': (36, 180), 'rlevinson': (56, 300),
+                'aryule': (64, 400), 'ma': (40, 240), 'ac2poly': (40, 200), 'ac2rc': (40, 200), 'poly2ac': (44, 240), 'poly2rc': (44, 240),
+                'ar2rc': (4, 8), 'rc2poly': (44, 240), 'rc2ac': (44, 240)}
 # programs whose comparators live in a module of their own (imported by the case files only when such a program is tied)
 EXTRA_MODULES = {'arcovar_marple': 'Spectrum.Model.LoopIRMarple', 'modcovar_marple': 'Spectrum.Model.LoopIRMarple',
                  'rlevinson': 'Spectrum.Model.LoopIRRlev'}
+EXTRA_MODULES.update({nm: 'Spectrum.Model.LoopIRWrap' for nm in ('aryule', 'ma', 'ac2poly', 'ac2rc', 'poly2ac', 'poly2rc', 'ar2rc', 'rc2poly', 'rc2ac')})
 
 # ---------------------------------------------------------------- LEVINSON: translation + theorem
 LEV_PROOF = 'Proofs/LoopIRLevinson.v'
@@ -2663,6 +2976,13 @@ def loopir_tie(ctx, names):
         if rc != 0:
             ctx.broken.append({'theorem': 'loopir: build of the interpreter', 'where': 'Model/LoopIRTie.v', 'log': log[-1500:]})
             return
+    for m in sorted(set(EXTRA_MODULES[nm] for nm in progs if nm in EXTRA_MODULES)):
+        t = m.replace('Spectrum.', '').replace('.', '/') + '.vo'
+        if not os.path.exists(os.path.join(vlib.COQ, t)) or os.path.getmtime(os.path.join(vlib.COQ, t)) < os.path.getmtime(os.path.join(vlib.COQ, t[:-1])):
+            rc, log = vlib.make_cone(t)
+            if rc != 0:
+                ctx.broken.append({'theorem': 'loopir: build of the comparators', 'where': t[:-1], 'log': log[-1500:]})
+                return
     defs = ''.join(p.coq() + '\n' for p in progs.values())
     gen = GEN_HEADER + defs; thms = []
     for nm in [n for n in progs if n in THEOREMS]:
